@@ -407,9 +407,49 @@ func checkC11(c *Ctx) {
 		}
 		jobs = append(jobs, Job{S: s, Rig: "ps", Judge: "ps-c11", Tag: "c11-ps-multi"})
 	}
+	// a second NG Setup for another PLMN on the same association: the PLMN announced last is the one
+	// every later user-location IE repeats; nothing captured at the first setup may survive
+	for i := 0; i < nPS/4; i++ {
+		o := GenOpts{Profile: "c11-resetup", Mode: "test", MinReg: 1, MaxReg: 1, Latency: "zero", ExplicitUEs: 2, MinMSIN: 4}
+		s := Gen(rp.Uint64(), o)
+		s.Args = []string{}
+		cfg := s.Config
+		mcc2, mnc2 := rp.Digits(3), rp.Digits(len(cfg.MNC))
+		if rp.Chance(1, 3) { // a neighbouring PLMN: one digit differs
+			pl := []byte(cfg.MCC + cfg.MNC)
+			k := rp.Intn(len(pl))
+			pl[k] = byte('0' + (int(pl[k]-'0')+1+rp.Intn(9))%10)
+			mcc2, mnc2 = string(pl[:3]), string(pl[3:])
+		}
+		if mcc2+mnc2 == cfg.MCC+cfg.MNC {
+			continue
+		}
+		s.ResetupPLMN = mcc2 + mnc2
+		second := mcc2 + mnc2 + rp.Digits(rp.Range(4, 12-len(mnc2)))
+		if rp.Chance(1, 3) { // the second subscriber roams in from the first PLMN
+			second = cfg.MCC + cfg.MNC + rp.Digits(rp.Range(4, 12-len(mnc2)))
+		}
+		if second == cfg.IMSI {
+			continue
+		}
+		s.Subscribers = []string{cfg.IMSI, second}
+		s.Population = 2
+		s.Rig = map[string]interface{}{"mode": "resetup", "nea": 0, "nia": 2, "ran_id": 1 + rp.Intn(1000), "dereg_first": rp.Bool()}
+		for len(s.UEs) < 2 {
+			u := genUE(rp.Sub(fmt.Sprint("rue", i, len(s.UEs))), o, len(s.UEs))
+			u.AmfUeID = int64(1000*len(s.UEs)) + u.AmfUeID%1000
+			s.UEs = append(s.UEs, u)
+		}
+		jobs = append(jobs, Job{S: s, Rig: "ps", Judge: "ps-c11", Tag: "c11-ps-resetup"})
+	}
 	triples := map[string]bool{}
 	c.Batch(jobs, func(j Job, r *Run, fs []Finding) {
 		cfg := j.S.Config
+		if j.Tag == "c11-ps-resetup" {
+			c.Probes["second-ng-setup-for-another-plmn"]++
+			triples[fmt.Sprintf("resetup/%s/%s/%s", cfg.MCC, cfg.MNC, j.S.ResetupPLMN)] = true
+			return
+		}
 		if len(j.S.Subscribers) > 0 {
 			c.Probes["multi-subscriber-procedure-runs"]++
 			for _, sub := range j.S.Subscribers[1:] {
